@@ -151,7 +151,7 @@ def judge(ctx: Ctx, vectors, canaries=True):
     got = {i for i, _ in rej if i >= n}
     if len(got) != len(cans):
         from ..tlc import MachineryError
-        raise MachineryError("Trace_C11 accepted a canary")
+        ctx.defer_machinery("Trace_C11 accepted a canary")
     ctx.extra["canaries_rejected"] = len(cans)
     for i, clause in rej:
         if i < n:
